@@ -377,7 +377,9 @@ theorem loadStrTail (R : Rendering ens ens' T Dom) (x : XmlNode) (hx : Dom x) :
 theorem loadStringEncoding (R : Rendering ens ens' T Dom) (x : XmlNode) (hx : Dom x) :
     Spp.loadStringEncoding ens' (T x) = Spp.loadStringEncoding ens x := by
   unfold Spp.loadStringEncoding
-  simp only [R.attr?, R.loadStrSpec x hx, R.strSizeEl x hx]
+  have hbo : ∀ enc, Spp.readStrByteOrder (T x) enc = Spp.readStrByteOrder x enc := by
+    intro enc; unfold Spp.readStrByteOrder; simp only [R.attr?]
+  simp only [R.attr?, hbo, R.loadStrSpec x hx, R.strSizeEl x hx]
   cases h1 : Spp.strSizeEl ens x with
   | none => rfl
   | some se => simp only [Option.map_some, R.loadStrTail se (R.strSizeEl_dom x se hx h1)]
